@@ -157,6 +157,7 @@ Definition no92 (ch : list N) : Prop := forall k, nth_error ch k <> Some 92.
   Qed.
 (* ------------------------------------------------------------------ the two shapes of an error-free token *)
 Section Scan.
+  Context {fx : FxEscape}.
   Variable gbk : list N -> Z.
 
   Definition TokA (s : lst) (t : tok) (s' : lst) : Prop :=
